@@ -108,6 +108,14 @@ class SSAValue:
 
 
 class OpResult(SSAValue):
+    def __init__(self, a=None, b=None, c=None, name_hint=None):
+        """stub form OpResult(den, type, owner) - or xdsl's own OpResult(type, op, index) when code under contract
+        creates a result itself (no denotation then)"""
+        if isinstance(b, Operation):
+            SSAValue.__init__(self, None, a, b, name_hint)
+        else:
+            SSAValue.__init__(self, a, b, c, name_hint)
+
     @property
     def index(self):
         k = 0
@@ -131,6 +139,11 @@ class BlockArgument(SSAValue):
                 return k
             k += 1
         return -1
+
+
+def SSAValues(values=()):
+    """xdsl's immutable sequence of values: a tuple here"""
+    return tuple(values)
 
 
 def den(x):
